@@ -431,6 +431,14 @@ func c02Gen(t *rapid.T) C02Case {
 					if rapid.Bool().Draw(t, "suffix") {
 						m.Value = gen.BS(regexpQuoteT(v[1:]))
 					}
+					if rapid.IntRange(0, 2).Draw(t, "own-anchors") == 0 {
+						// The user's own anchors around an alternation: "^ab|yz$" still has to
+						// match the whole value, not "starts with ab" or "ends with yz".
+						w := rapid.SampledFrom(f.Pool).Draw(t, "substring-of-2")
+						if len(w) >= 2 {
+							m.Value = gen.BS("^" + regexpQuoteT(v[:len(v)-1]) + "|" + regexpQuoteT(w[1:]) + "$")
+						}
+					}
 				}
 			}
 		}
